@@ -545,6 +545,13 @@ def rule_test_bindings(rep: Report, repo: Repo, r_scan: str, r_filter: str) -> N
                                   witness=f"{k}(EXPECTFAIL NAME t)")
                         continue
                     if info is None or info.get("unknown"):
+                        fixed = nf_for(lm, r).nf(f.get("name"))
+                        if isinstance(fixed, tuple) and fixed and fixed[0] == "text" and fixed[1][0] == "index" and fixed[1][1] == A \
+                                and is_const(fixed[1][2]):
+                            rep.bad(r_scan, WHERE + ".process_" + k, f"name <- {pretty(fixed)}",
+                                    f"on some path the entry is named by the argument at the fixed position {fixed[1][2][1]}, not by the "
+                                    f"argument following NAME", witness=f"{k}(WORKING_DIRECTORY d NAME the_name COMMAND c)")
+                            continue
                         raise AnalysisError(f"process_{k}: the NAME lookup is not a recognised keyword scan over the arguments "
                                             f"({show(f.get('name'))[:60]})")
                     ok, msg = _check_scan(info, "NAME", ("text", ("index", A, ("concat", ("idx",), const(1)))))
